@@ -30,6 +30,7 @@ ASSUMPTIONS = ["faults are exceptions raised by models; process kills are not in
                "under the process scheduler only picklable exception classes are injected (Python's pickling contract)",
                "inside the optimiser's worker threads only the message (not the type) must survive, as the statement says"]
 REQUIRED_COUNTERS = ["fault_points_planned", "fault_points_hit", "faults_exposure", "faults_obs_seq", "faults_obs_dask",
+                     "faults_obs_seq_at_configured_value",
                      "faults_calibration_initial", "faults_calibration_evolution", "identity_checks", "no_events_after_fault_checks"]
 TIMEOUT = {"quick": 1200, "thorough": 5400}
 LEVEL_TEXT = ("Fault enumeration by runtime injection: for each generated pipeline every (run, step, model position) "
@@ -204,6 +205,10 @@ def pipeline_shard(rec, spec):
         # the swept quantity is a detector field every model can read: each run is identifiable by all models
         k_values = [float(v) for v in rng.sample(range(100, 400), rng.randint(2, 4))]
         key = "detector.environment.temperature"
+        # scans usually bracket the configured value: one run always uses exactly the value of the base detector
+        nominal = float(build.make_detector(build.default_detector_spec("ccd", 2, 3)).environment.temperature)
+        if nominal not in k_values:
+            k_values[rng.randrange(len(k_values))] = nominal
         names = list(CLASSES)
         ci = spec["shard"] + i
         base_case = {"pipeline": pspec, "times": times, "k_values": k_values, "sweep": key}
@@ -274,6 +279,8 @@ def pipeline_shard(rec, spec):
                             hit = 1 if exc is not None else 0
                         rec.count("fault_points_hit", min(hit, 1))
                         rec.count("faults_obs_seq" if not dask_on else "faults_obs_dask")
+                        if not dask_on and k == nominal:
+                            rec.count("faults_obs_seq_at_configured_value")
                         mode_tag = "obs_seq" if not dask_on else exec_mode
                         judge(rec, exc, ret, mode_tag, point, case, i, g, m,
                               k_values=k_values if exec_mode == "obs_seq" else None)
